@@ -221,7 +221,7 @@ func fixedBufferCleaner(c *Ctx) {
 			q.expectCond("COND", "forced branch iff size > max", r, nil, an.DNF{conj(lit(size.Minus(maxL), an.SPos))}, keepForms(size.Minus(maxL)))
 		}
 	}
-	q.add("PROV", "two outcomes: forced trim or the default cleaner", nForced == 1 && nDefault == 1, "one forced return and one delegation")
+	q.add("PROV", "two outcomes: forced trim or the default cleaner", nForced >= 1 && nDefault >= 1, "every return is the forced trim or the delegation (each checked above)")
 }
 
 func cleanupLogic(c *Ctx) {
@@ -441,6 +441,10 @@ func consumerOffsets(c *Ctx) {
 	}
 	contribution := func(elem ssa.Value, a ssa.Instruction) {
 		want := an.LinAtom("range(" + b + ".consumers)#2").Minus(aF(b + ".offset"))
+		// ranging over the keys and looking each one up is the same value
+		if alt := aM(b+".consumers", an.LinAtom("range("+b+".consumers)#1")).Minus(aF(b + ".offset")); P.Lin(elem).Equal(alt) {
+			want = alt
+		}
 		q.expectLin("LIN", "relative offset = committed - base", elem, want, a)
 		// unconditional in the range body
 		got := P.PathCond(q.fn, nx.Block(), a, nil)
